@@ -3,12 +3,25 @@
 #pragma once
 #include "common/vh.hpp"
 #include <algorithm>
+#include <map>
+#include <vector>
 
 namespace vh {
 struct G2Tol {
     bool near = false; double beta = 1; double min_gap = 1e300;
-    void prepare(const RVec& E, double beta_) {
+    // Input class of finding #18 (DESIGN 9.3): two different energy differences between the same pair of blocks lie within about one
+    // reduction window (1e-10 < |d1-d2| < 3e-8) of each other.  Then TwoParticleGFPart merges resonant terms whose poles agree component-wise
+    // within 1e-8 although one of them satisfies the resonance condition |P1+P2| < 1e-8 and the other does not; the merged term is evaluated on
+    // one branch only and the other contribution (of order beta*weight) is lost.
+    bool straddle = false;
+    void prepare(const RVec& E, double beta_, const std::vector<int>* block = nullptr) {
         beta = beta_;
+        {
+            const long n = E.size(); std::map<std::pair<int, int>, std::vector<double>> groups;
+            for (long a = 0; a < n; ++a) for (long b = 0; b < n; ++b) groups[{block ? (*block)[(size_t)a] : 0, block ? (*block)[(size_t)b] : 0}].push_back(E(a) - E(b));
+            for (auto& kv : groups) { std::vector<double>& d = kv.second; std::sort(d.begin(), d.end());
+                for (size_t k = 1; k < d.size() && !straddle; ++k) { double g = d[k] - d[k - 1]; if (g > 1e-10 && g < 3e-8) straddle = true; } }
+        }
         std::vector<double> d; const long n = E.size();
         double scale = 1; for (long a = 0; a < n; ++a) scale = std::max(scale, std::abs(E(a)));
         for (long a = 0; a < n; ++a) for (long b = 0; b < n; ++b) d.push_back(E(a) - E(b));
